@@ -241,8 +241,11 @@ def main() -> int:
         sys.stdout.flush()
         os._exit(2)
 
+    # CPU time of this process (a loaded machine must not turn a green check into "no verdict"); a generous wall-clock alarm behind it
+    signal.signal(signal.SIGPROF, _out_of_time)
+    signal.setitimer(signal.ITIMER_PROF, budget)
     signal.signal(signal.SIGALRM, _out_of_time)
-    signal.alarm(budget)
+    signal.alarm(budget * 6)
     if args.replay:
         with open(args.replay, encoding="utf-8") as fh:
             data = json.load(fh)
